@@ -9,6 +9,7 @@ import (
 	"fmt"
 	"runtime"
 	"sort"
+	"strings"
 	"sync"
 	"time"
 )
@@ -42,6 +43,49 @@ type Sched struct {
 
 	Grace time.Duration // how long the pending set must be stable before a decision
 	Hang  time.Duration // how long to wait for progress before giving up
+
+	// Deadlock is set (together with Err) when the run ended because nothing can move any more: no operation is
+	// pending or running, the workers have not finished, and every goroutine that is inside the code under test
+	// (its stack holds a frame of the package named by Workers) is parked on a channel, mutex, condition or wait
+	// group, in two samples a second apart. Nothing outside those goroutines can wake them (the harness only acts
+	// through operations), so this is an observation about the schedule, not a time limit.
+	Deadlock bool
+	Workers  string // substring of the stack frames of the code under test; "" disables deadlock detection
+}
+
+var blockedStates = []string{"chan receive", "chan send", "select", "semacquire", "sync.Mutex.Lock", "sync.RWMutex", "sync.Cond.Wait", "sync.WaitGroup.Wait"}
+
+// allBlocked reports whether at least one goroutine is inside the code under test and all of those are parked.
+func (s *Sched) allBlocked() (bool, string) {
+	buf := make([]byte, 4<<20)
+	buf = buf[:runtime.Stack(buf, true)]
+	n, summary := 0, ""
+	for _, g := range strings.Split(string(buf), "\n\n") {
+		if !strings.Contains(g, s.Workers) || strings.Contains(g, "sched.(*Sched).allBlocked") {
+			continue
+		}
+		i, j := strings.Index(g, "["), strings.Index(g, "]")
+		if !strings.HasPrefix(g, "goroutine ") || i < 0 || j < i {
+			return false, ""
+		}
+		state, blocked := g[i+1:j], false
+		for _, b := range blockedStates {
+			if strings.HasPrefix(state, b) {
+				blocked = true
+			}
+		}
+		if !blocked {
+			return false, ""
+		}
+		n++
+		if n <= 3 {
+			lines := strings.Split(g, "\n")
+			if len(lines) > 1 {
+				summary += state + " in " + strings.TrimSpace(lines[1]) + "; "
+			}
+		}
+	}
+	return n > 0, fmt.Sprintf("%d goroutines parked inside the code under test (%s...)", n, summary)
 }
 
 // New makes an exploring scheduler: decision k releases pending[choices[k] % len(pending)]
@@ -88,12 +132,34 @@ func (s *Sched) waitStable(finished func() bool) bool {
 	deadline := time.Now().Add(s.Hang)
 	var stableSince time.Time
 	last := -1
+	var idleSince time.Time
+	firstSample := false
 	for {
 		running, arrivals, np := s.snapshot()
 		if running == 0 && np == 0 && finished() {
 			return false
 		}
 		now := time.Now()
+		if running == 0 && np == 0 && s.Workers != "" {
+			if idleSince.IsZero() {
+				idleSince = now
+			}
+			if idle := now.Sub(idleSince); idle > 1500*time.Millisecond && !firstSample || idle > 2500*time.Millisecond {
+				if ok, what := s.allBlocked(); ok && firstSample {
+					if !finished() {
+						s.Deadlock = true
+						s.Err = fmt.Errorf("deadlock: no operation pending or running, workers not finished, %s", what)
+						return false
+					}
+				} else if ok {
+					firstSample = true
+				} else {
+					idleSince, firstSample = time.Time{}, false
+				}
+			}
+		} else {
+			idleSince, firstSample = time.Time{}, false
+		}
 		if running == 0 && arrivals == last && np > 0 {
 			if stableSince.IsZero() {
 				stableSince = now
